@@ -1108,6 +1108,12 @@ WITNESSES = [
     ("value_witness", [("add", X), ("solve",), ("get_value", Y), ("get_value", ("and", X, Y))]),
     ("model_witness", [("add", X), ("push", 1), ("add", Y), ("solve",), ("get_model",)]),
     ("model_witness_pending", [("add", X), ("is_sat", Y), ("get_model",)]),
+    # two histories on which a thorough run once reported a model/implementation difference: the
+    # reference solver's log record of the clean-up `exit` was cut by terminate() (harness defect)
+    ("thorough_a", [("push", 1), ("is_valid", X), ("add", _tree("or", [("not", ("var", "p0")), Y] + [("var", "p%d" % k) for k in range(1, 8)])), ("add", X)]),
+    ("thorough_b", [("is_sat", ("not", ("var", "b2"))), ("add", ("ite", Y, X, ("var", "b2"))), ("push", 1), ("add", ("not", Y)),
+                    ("add", ("ite", ("iff", ("var", "b2"), ("var", "b2")), ("not", Y), ("xor", ("false",), Y))), ("pop", 1),
+                    ("add", ("and", Y, X)), ("push", 1), ("is_sat", X), ("solve",), ("get_value", ("var", "b2"))]),
 ]
 
 
@@ -1133,9 +1139,15 @@ def _value_of(node):
 
 
 def read_log(path):
-    out, end = [], None
+    """Returns (records, end marker, partial): `partial` is the text of a last line that was cut
+    while being written (the reference solver was terminated in the middle of a record)."""
+    out, end, partial = [], None, None
     try:
-        for line in open(path):
+        text = open(path).read()
+        lines = text.split("\n")
+        if lines and lines[-1].strip():
+            partial = lines.pop()       # no newline after it: the record is incomplete
+        for line in lines:
             line = line.strip()
             if not line:
                 continue
@@ -1150,7 +1162,7 @@ def read_log(path):
                 out.append(o)
     except OSError:
         pass
-    return out, end
+    return out, end, partial
 
 
 def run_history(h, logpath, mode="incremental"):
@@ -1276,8 +1288,16 @@ def run_history(h, logpath, mode="incremental"):
             signal.alarm(0)
             signal.signal(signal.SIGALRM, old)
     time.sleep(0.005)
-    log, end = read_log(logpath)
+    log, end, partial = read_log(logpath)
     obs["end"] = end
+    if partial is not None:
+        # Without an exception every command before our clean-up `exit` was answered, hence logged
+        # completely: the cut record can only be that exit, written while SmtLibSolver._exit()
+        # terminated the process.  After an exception the solver is left to finish (EOF), so a cut
+        # record there is an anomaly and stays visible.
+        obs["log_partial"] = partial[:200]
+        if obs["exc"] is not None:
+            log.append({"name": "<unparsable log line>", "cmd": partial, "reply": None, "symbols": [], "args": None})
     if obs["timeout"] or end == "idle-timeout":
         obs["timeout"] = True
     # the trailing exit (sent by our clean-up; racing with terminate()) is not part of the history
@@ -1958,8 +1978,11 @@ def run(tier):
         if not ok:
             what.append("proof obligations no longer check: " + lib.proof_failure_summary(chk))
         for i in silent[:3]:
-            what.append({"correspondence": "model and implementation differ", "history": show_history(jobs[i][0]),
-                         "implementation_commands": [e["cmd"] for e in res[i]["log"]], "raised": res[i]["exc"]})
+            what.append({"correspondence": "model and implementation differ" if i not in untranslatable else
+                         "the logged command stream could not be translated for the model (unknown command / symbol / unparsable log line)",
+                         "history": show_history(jobs[i][0]), "history_calls": [list(c) for c in jobs[i][0]],
+                         "implementation_commands": [e["cmd"] for e in res[i]["log"]], "raised": res[i]["exc"],
+                         "log_partial": res[i].get("log_partial")})
         what += corr_bad[:2]
         chk.violation({"kind": "obligation", "theorem_or_correspondence": what}, found_input=False)
     return chk.finish(TRUSTED, ASSUMPTIONS, RULE)
@@ -2011,11 +2034,13 @@ def replay(path):
     SYMS_OF = _make_symfun()
     r = json.load(open(path))
     print(json.dumps({k: r[k] for k in r if k in ("shown", "failures", "key", "mode")}, indent=1, default=str))
-    if r.get("kind") != "history":
-        return run("quick")
-
     def tup(x):
         return tuple(tup(y) for y in x) if isinstance(x, list) else x
+    if r.get("kind") != "history":
+        hs = [e["history_calls"] for e in r.get("theorem_or_correspondence", []) if isinstance(e, dict) and e.get("history_calls")]
+        if not hs:
+            return run("quick")
+        r = {"history": hs[0], "mode": "incremental"}
     h = [tup(c) for c in r["history"]]
     mode = r.get("mode", "incremental")
     logdir = lib.mkdir(os.path.join(lib.BUILD, "C17", "logs"))
@@ -2028,4 +2053,19 @@ def replay(path):
     print("exception:", obs["exc"])
     print("failures:", json.dumps(fails, indent=1, default=str))
     print("diagnosis:", diagnose(h, obs, fails) if mode == "incremental" else None)
-    return 1 if fails else 0
+    differs = False
+    if mode == "incremental" and not obs["timeout"]:
+        cl = coq_commands(obs["log"])
+        if cl is None:
+            print("correspondence: the logged stream cannot be translated for the model", obs.get("log_partial"))
+            differs = True
+        else:
+            pth = os.path.join(lib.mkdir(os.path.join(lib.BUILD, "C17")), "cases_replay.v")
+            open(pth, "w").write(HDR + "Definition cases : list (list api_call * list command * bool) := [\n (%s, %s, %s) ].\n"
+                                 "Eval vm_compute in mismatches case_ok cases.\nEval vm_compute in observed (fst (fst (hd ([], [], false) cases))).\n"
+                                 % (coq_history(h, obs["fvs"], obs.get("sorts")), cl, lib.coq_bool(obs["exc"] is not None)))
+            rc, out = lib.coqc_file(pth)
+            mm = lib.parse_nat_list(out) if rc == 0 else None
+            differs = mm != []
+            print("correspondence with the Coq model:", "agrees" if mm == [] else "DIFFERS", "" if mm == [] else out[-1500:])
+    return 1 if (fails or differs) else 0
